@@ -184,11 +184,24 @@ fn setters(d: &reg::IDesc, ctx: &Ctx, r: &mut Report) {
 						let c0 = &gen::candles(0, 7, 2, 2)[0];
 						let a = guard(|| dc.init(c0).is_ok());
 						let b = guard(|| c2.init(c0).is_ok());
-						match (a, b) {
+						let init_same = match (a, b) {
 							(Ok(x), Ok(y)) => x == y,
 							(Err(_), Err(_)) => true, // both panic: C10's matter
 							_ => false,
-						}
+						};
+						// batch evaluation through the two interfaces: same outcome and the same number of results, on an
+						// empty input as well (where the static `over` answers Ok(empty) whatever the configuration is)
+						let few = gen::candles(0, 7, 3, 2);
+						let over_same = [Vec::new(), few].iter().all(|cs| {
+							let a = guard(|| dc.over(cs).map(|v| v.len()).ok());
+							let b = guard(|| c2.over(cs).map(|v| v.len()).ok());
+							match (a, b) {
+								(Ok(x), Ok(y)) => x == y,
+								(Err(_), Err(_)) => true,
+								_ => false,
+							}
+						});
+						init_same && over_same
 					};
 					if !agree || !init_agree {
 						r.violate(&format!("C11|{}|dyn-config|set-differs", d.name), "set through IndicatorConfigDyn behaves differently from the static set (outcome, validity, shape or init)", || json!({"case": case(), "steps": steps, "failing_step": si, "dyn_ok": rd.as_ref().ok(), "static_ok": rs.as_ref().ok()}));
